@@ -1,43 +1,82 @@
 """C06 — HD key derivation, extended keys and addresses follow BIP32 / Base58Check.
 
-DRAFT (work in progress)
+Deductive part (symbolic execution of the real code; HMAC-SHA512, the hashes and secp256k1 are uninterpreted functions
+with the facts listed in TRUSTED; every obligation is discharged by SMT):
+  * CKDpriv / CKDpub (`PrivateKey.child`, `PublicKey.child`): the HMAC message is `0x00 || ser256(k) || ser32(i)` for
+    i >= 2**31 and `serP(K) || ser32(i)` below, keyed with the parent chain code; the child key is
+    `(parse256(I_L) + k) mod n` resp. `K + I_L*G`, the chain code `I_R`; depth / index / parent plumbing; the index
+    ranges (public derivation refuses hardened indices); BIP32's invalid cases (I_L >= n, key 0 / point at infinity)
+    raise instead of returning a key; for every 32-byte key and chain code, every index, every depth.
+    [ckd_priv, ckd_pub]
+  * N(CKDpriv(k, i)) == CKDpub(N(k), i) for every non-hardened i, including fingerprints. [ckd_neuter_commutes]
+  * master key generation `from_seed` for every seed of 16..64 bytes. [master_key]
+  * the 78-byte serialisation `extended_key` of private and public keys with and without parent, fingerprints
+    [xkey_layout]; its decoder `_from_extended_key`: every field offset, version dispatch, rejection of a wrong
+    length / unknown version / non-zero padding byte / invalid key material [xkey_decode, xkey_decode_length]; the
+    encode -> decode round trip [xkey_roundtrip].
+  * Base58Check framing: `encode_check` hands payload || SHA256d(payload)[:4] to the numeral encoder, `decode_check`
+    returns the payload exactly when the last four bytes are that checksum and raises Base58Error otherwise, for
+    *every* byte string the numeral decoder can deliver. [encode_check, decode_check]
+  * deductive MODULO THE CONTRACT OF THE BASE58 NUMERAL CONVERSION (see TRUSTED; the contract itself is only checked
+    by the bounded stand-ins base58.*): `hash160_to_address`, `hash160_to_script_address`, `address_to_hash160`,
+    `public_key_to_address` [address]; acceptance of an address string exactly with the right checksum and its
+    classification by prefix (`decode_check`, `is_pubkey_address`, `is_script_address`) [address_check];
+    `extended_key_string` [xkey_string]; `from_extended_key_string` [xkey_string_decode].
+  * gap-limited address chains: `ensure_address_gap` / `_generate_keys` create exactly `gap - existing_gap` keys, the
+    children (chain, index) of the account public key at consecutive indices after the highest known one, store and
+    announce them in that order, and nothing when the gap is there: gap 1, 2, 3, 6 with 0..gap known addresses of
+    arbitrary used counts and indices [address_gap[...]]; `get_private_key` / `get_public_key` follow
+    (own account, chain, index) with two accounts used alternately [chain_keys_two_accounts] (key objects are
+    path-recording stand-ins in these two families).
+
+Bounded stand-ins (run-time contract checks of the real functions with CPython, never counted as proved): the Base58
+numeral loops and refusal of foreign characters, Base58Check end to end with a neighbourhood of corrupted strings, the
+mnemonic numeral loops, PBKDF2 seed stretching, the published BIP32 test vectors 1-3, agreement with an independent
+pure-Python BIP32 (own secp256k1 arithmetic) along paths up to depth 6, regeneration of the same receiving / change
+address sequences from the same mnemonic through the real `Account.from_dict`, and the gap clause at gaps 20 and 6.
 """
-import asyncio
 import hashlib
 import hmac
 import z3
 
 from pyvc.api import *
-from pyvc.speclib import implies, forall
 from pyvc.values import *
-from pyvc.ops import exc, mk_int, iterm
+from pyvc.ops import exc, mk_int, iterm, unlift
 from pyvc.segs import VSegs, segs_of, to_vbytes, total_len
 
 from coincurve import PrivateKey as cPrivateKey, PublicKey as cPublicKey
 
 from lbry.wallet.bip32 import PrivateKey, PublicKey, _from_extended_key, from_extended_key_string
-from lbry.wallet.ledger import Ledger
+from lbry.wallet.ledger import Ledger, TestNetLedger
+from lbry.wallet.account import HierarchicalDeterministic, Account
+from lbry.wallet.mnemonic import Mnemonic
 from lbry.crypto.base58 import Base58, Base58Error
 
 # secp256k1 group order (SEC 2, section 2.4.1)
 N = 0xFFFFFFFFFFFFFFFFFFFFFFFFFFFFFFFEBAAEDCE6AF48A03BBFD25E8CD0364141
 HARDENED = 2 ** 31
+# BIP32 serialisation versions
+XPUB_MAIN, XPRV_MAIN = bytes.fromhex('0488b21e'), bytes.fromhex('0488ade4')
+XPUB_TEST, XPRV_TEST = bytes.fromhex('043587cf'), bytes.fromhex('04358394')
 
-# ------------------------------------------------------------------------------------------------
+# ================================================================================================
 # Trusted library models (engine level).  Natively the real hmac / coincurve run; symbolically they
 # are uninterpreted functions with exactly the algebraic facts listed in TRUSTED.
-# ------------------------------------------------------------------------------------------------
+# ================================================================================================
 
 _S = z3.StringSort()
 _I = z3.IntSort()
+_B = z3.BoolSort()
 HM_L = z3.Function('hmac_sha512_left', _S, _S, _S)       # bytes 0..31 of HMAC-SHA512(key, msg)
 HM_R = z3.Function('hmac_sha512_right', _S, _S, _S)      # bytes 32..63
 EC_SER = z3.Function('secp256k1_serP_of_scalar', _I, _S)  # serP(k*G), compressed, 33 bytes
 EC_TWK = z3.Function('secp256k1_serP_tweak_add', _S, _I, _S)   # serP(P + t*G) from serP(P)
-EC_VALID = z3.Function('secp256k1_valid_compressed', _S, z3.BoolSort())
-EC_ADDOK = z3.Function('secp256k1_tweak_not_infinity', _S, _I, z3.BoolSort())
-BE = z3.Function('int_from_be', _S, _I)
+EC_VALID = z3.Function('secp256k1_valid_compressed', _S, _B)
+EC_ADDOK = z3.Function('secp256k1_tweak_not_infinity', _S, _I, _B)
+BE = z3.Function('int_from_be', _S, _I)                  # the engine's symbols for int.from_bytes / int.to_bytes
 TOBE = z3.Function('int_to_be', _I, _I, _S)
+B58E = z3.Function('base58_numeral', _S, _S)             # bytes -> Base58 text
+B58D = z3.Function('base58_value', _S, _S)               # Base58 text -> bytes
 
 
 def _flat(v):
@@ -49,10 +88,15 @@ def _flat(v):
     return v.term()
 
 
-def _known_len(v):
+def _has_len(st, v, n):
+    """the bytes value v is known to be n bytes long on this path"""
     segs = segs_of(v)
-    n = total_len(segs)
-    return n if isinstance(n, int) else None
+    if segs is None:
+        return False
+    ln = total_len(segs)
+    if isinstance(ln, int):
+        return ln == n
+    return st.entails(z3.simplify(ln) == n)
 
 
 def _assume_bytes(st, t, n):
@@ -88,24 +132,80 @@ def _m_hmac_new(interp, st, args, kwargs):
     yield st, st.alloc(HObj(_HmacResult, dict(d=d)))
 
 
+# hashlib: same uninterpreted digest functions as the engine's own model (pyvc.stdmodels), but the digest length is also
+# put on the path condition, so that the cheap branch pruning knows the length of slices such as hash160(x)[:4]
+
+class _HashObj:
+    """hashlib hash object as far as the code under contract uses it"""
+
+    def __init__(self, alg, fed):
+        self.alg = alg
+        self.fed = fed
+
+    def update(self, data):
+        self.fed = self.fed + data
+
+    def digest(self):
+        return _digest_of(self.alg, self.fed)
+
+
+def _digest_of(alg, data):
+    return hashlib.new(alg, data).digest()
+
+
+@model_for(_digest_of)
+def _m_digest_of(interp, st, args, kwargs):
+    from pyvc.stdmodels import hash_uf, HASH_SIZES
+    alg, data = unlift(args[0]), args[1]
+    interp.builtins_used.add(f"hashlib.{alg}")
+    if data.concrete:
+        yield st, VBytes(hashlib.new(alg, bytes(unlift(data))).digest())
+        return
+    t = hash_uf(alg)(_flat(data))
+    _assume_bytes(st, t, HASH_SIZES[alg])
+    yield st, VSegs([('sym', t, HASH_SIZES[alg])])
+
+
+def _new_hash_obj(st, alg, data):
+    if data is None or data is VNone:
+        data = VBytes(b'')
+    if segs_of(data) is None:
+        raise Unsupported("hashing a non-bytes value")
+    return st.alloc(HObj(_HashObj, dict(alg=VStr(alg), fed=data)))
+
+
+@model_for(hashlib.sha256)
+def _m_sha256(interp, st, args, kwargs):
+    yield st, _new_hash_obj(st, 'sha256', args[0] if args else None)
+
+
+@model_for(hashlib.new)
+def _m_hashlib_new(interp, st, args, kwargs):
+    yield st, _new_hash_obj(st, unlift(args[0]).lower(), args[1] if len(args) > 1 else kwargs.get('data'))
+
+
 def _new_pub(st, ser_value):
     return st.alloc(HObj(cPublicKey, dict(ser=ser_value)))
 
 
-def _pub_of_scalar(st, k):
-    t = EC_SER(iterm(k))
+def _assume_point(st, t):
     _assume_bytes(st, t, 33)
     c0 = z3.StrToCode(z3.SubString(t, 0, 1))
     st.assume(z3.Or(c0 == 2, c0 == 3))
     st.assume(EC_VALID(t))
+
+
+def _pub_of_scalar(st, k):
+    t = EC_SER(iterm(k))
+    _assume_point(st, t)
     return _new_pub(st, VSegs([('sym', t, 33)]))
 
 
 def _new_priv(st, k):
-    """k: z3 Int term with 0 < k < N on this path"""
+    """k: z3 Int term (or int) with 0 < k < N on this path"""
     k = iterm(k)
     sec = TOBE(k, z3.IntVal(32))
-    if z3.is_app(k) and k.decl().eq(BE) and st.entails(z3.Length(k.arg(0)) == 32):
+    if z3.is_app(k) and k.decl().eq(BE) and st.entails(z3.simplify(z3.Length(k.arg(0))) == 32):
         # trusted law  int.to_bytes(int.from_bytes(s), len(s)) == s  applied syntactically (s is a 32-byte string)
         sec = k.arg(0)
     return st.alloc(HObj(cPrivateKey, dict(secret=VSegs([('sym', sec, 32)]), public_key=_pub_of_scalar(st, k), k=mk_int(k))))
@@ -137,7 +237,7 @@ def _m_priv_to_int(interp, st, args, kwargs):
 
 
 def _scalar_of(st, v):
-    if _known_len(v) != 32:
+    if not _has_len(st, v, 32):
         raise Unsupported("tweak scalar must be 32 bytes")
     if v.concrete:
         return z3.IntVal(int.from_bytes(unlift(v), 'big'))
@@ -171,8 +271,8 @@ def _m_priv_add(interp, st, args, kwargs):
 @model_for(cPublicKey)
 def _m_pub_parse(interp, st, args, kwargs):
     data = args[0]
-    if _known_len(data) != 33:
-        raise Unsupported("coincurve.PublicKey(data): only 33-byte compressed keys are modelled")
+    if segs_of(data) is None:
+        raise Unsupported("coincurve.PublicKey(data): bytes expected")
     interp.builtins_used.add("coincurve.PublicKey [uninterpreted group]")
     if data.concrete:
         try:
@@ -185,9 +285,19 @@ def _m_pub_parse(interp, st, args, kwargs):
     t = _flat(data)
     c0 = z3.StrToCode(z3.SubString(t, 0, 1))
     ok = z3.And(EC_VALID(t), z3.Or(c0 == 2, c0 == 3))
-    for s1, r in interp.alts(st, [(ok, 'ok'), (z3.Not(ok), 'bad')]):
+    if _has_len(st, data, 33):
+        alts = [(ok, 'ok'), (z3.Not(ok), 'bad')]
+    else:
+        # only the 33-byte compressed form is modelled: any other length may be refused or accepted (unknown key)
+        len33 = z3.Length(t) == 33
+        alts = [(z3.And(len33, ok), 'ok'), (z3.And(len33, z3.Not(ok)), 'bad'), (z3.Not(len33), 'bad'), (z3.Not(len33), 'unknown')]
+    for s1, r in interp.alts(st, alts):
         if r == 'ok':
             yield s1, _new_pub(s1, data)
+        elif r == 'unknown':
+            u = z3.String(fresh_name('parsed_point'))
+            _assume_point(s1, u)
+            yield s1, _new_pub(s1, VSegs([('sym', u, 33)]))
         else:
             yield s1, exc(ValueError, "The public key could not be parsed or is invalid.")
 
@@ -213,21 +323,146 @@ def _m_pub_add(interp, st, args, kwargs):
     for s1, r in interp.alts(st, [(ok, 'ok'), (z3.Not(ok), 'bad')]):
         if r == 'ok':
             res = EC_TWK(ser, t)
-            _assume_bytes(s1, res, 33)
-            c0 = z3.StrToCode(z3.SubString(res, 0, 1))
-            s1.assume(z3.Or(c0 == 2, c0 == 3))
-            s1.assume(EC_VALID(res))
+            _assume_point(s1, res)
             yield s1, _new_pub(s1, VSegs([('sym', res, 33)]))
         else:
             yield s1, exc(ValueError, "The tweak was out of range, or the resulting public key is invalid.")
 
 
-# ------------------------------------------------------------------------------------------------
-# BIP32 oracle (written from the BIP32 text; HMAC-SHA512 and the curve come from hmac / coincurve)
-# ------------------------------------------------------------------------------------------------
+@model_for(range)
+def _m_range(interp, st, args, kwargs):
+    """range(lo, hi) with symbolic end points whose distance is a constant (start + k): the list lo, lo+1, .., hi-1.
+    (work-around for engine gap C06_2; everything else goes to the engine's own model)"""
+    from pyvc.builtins_model2 import t_range
+    from pyvc.ops import is_numeric, as_int_term
+    if len(args) == 2 and not kwargs and all(is_numeric(a) for a in args) and not all(a.concrete for a in args):
+        lo, hi = iterm(as_int_term(args[0])), iterm(as_int_term(args[1]))
+        d = z3.simplify(hi - lo)
+        if z3.is_int_value(d) and d.as_long() <= 64:
+            yield st, st.alloc(HList(items=[mk_int(lo + j) for j in range(max(0, d.as_long()))]))
+            return
+    yield from t_range(interp, st, args, kwargs)
+
+
+# ---- the Base58 numeral conversion, treated modularly in the deductive proofs (contract checked bounded below)
+
+B58_ALPHABET = '123456789ABCDEFGHJKLMNPQRSTUVWXYZabcdefghijkmnopqrstuvwxyz'
+
+
+def spec_b58encode(b):
+    """Base58 numeral of a byte string (Bitcoin wiki 'Base58Check encoding', steps 4-6): big-endian number in base 58,
+    one leading '1' per leading zero byte"""
+    b = bytes(b)
+    n = int.from_bytes(b, 'big')
+    out = ''
+    while n > 0:
+        n, r = divmod(n, 58)
+        out = B58_ALPHABET[r] + out
+    pad = 0
+    while pad < len(b) and b[pad] == 0:
+        pad += 1
+    return '1' * pad + out
+
+
+def spec_b58decode(s):
+    """inverse of spec_b58encode; None for strings outside the alphabet"""
+    n = 0
+    for ch in s:
+        d = B58_ALPHABET.find(ch)
+        if d < 0:
+            return None
+        n = n * 58 + d
+    pad = 0
+    while pad < len(s) and s[pad] == '1':
+        pad += 1
+    body = n.to_bytes((n.bit_length() + 7) // 8, 'big')
+    return b'\x00' * pad + body
+
+
+_B58_ENCODE = Base58.__dict__['encode'].__func__
+_B58_DECODE = Base58.__dict__['decode'].__func__
+
+
+def _m_b58_encode_value(interp, st, be):
+    interp.builtins_used.add("Base58 numeral [modular contract, checked bounded]")
+    if be.concrete:
+        return None
+    return VStr(B58E(_flat(be)))
+
+
+@model_for(_B58_ENCODE)
+def _m_b58_encode(interp, st, args, kwargs):
+    r = _m_b58_encode_value(interp, st, args[1])
+    yield st, (r if r is not None else VStr(_B58_ENCODE(Base58, unlift(args[1]))))        # concrete input: the real function runs
+
+
+@model_for(spec_b58encode)
+def _m_spec_b58encode(interp, st, args, kwargs):
+    r = _m_b58_encode_value(interp, st, args[0])
+    yield st, (r if r is not None else VStr(spec_b58encode(unlift(args[0]))))
+
+
+def _starts_with_nonzero_literal(b, depth=0):
+    """the byte-string term is (an if-then-else of) a concatenation that begins with a literal whose first byte is not zero"""
+    if depth > 8 or not z3.is_app(b):
+        return False
+    if b.decl().kind() == z3.Z3_OP_SEQ_CONCAT:
+        return _starts_with_nonzero_literal(b.arg(0), depth + 1)
+    if b.decl().kind() == z3.Z3_OP_ITE:
+        return _starts_with_nonzero_literal(b.arg(1), depth + 1) and _starts_with_nonzero_literal(b.arg(2), depth + 1)
+    if not z3.is_string_value(b):
+        return False
+    lit = unescape_smt(b.as_string())
+    return len(lit) > 0 and lit[0] != '\x00'
+
+
+@model_for(_B58_DECODE)
+def _m_b58_decode(interp, st, args, kwargs):
+    txt = args[1]
+    interp.builtins_used.add("Base58 numeral [modular contract, checked bounded]")
+    if not isinstance(txt, VStr):
+        raise Unsupported("Base58.decode of a non-str")
+    if txt.concrete:
+        try:
+            yield st, VBytes(_B58_DECODE(Base58, txt.v))                                   # concrete input: the real function runs
+        except Base58Error as e:
+            yield st, exc(Base58Error, str(e))
+        return
+    t = txt.term()
+    alts = []
+    if z3.is_app(t) and t.decl().eq(B58E):
+        b = t.arg(0)
+        if _starts_with_nonzero_literal(b):
+            yield st, VBytes(b)
+            return
+        nonzero = z3.Not(z3.InRe(b, z3.Star(z3.Re(mk_str('\x00')))))
+        alts.append((nonzero, VBytes(b)))
+        other = z3.Not(nonzero)
+    else:
+        other = True
+    # anything else: some byte string, or refusal
+    r = B58D(t)
+    alts.append((other, ('some', r)))
+    alts.append((other, exc(Base58Error, "invalid base 58 string")))
+    for s1, a in interp.alts(st, alts):
+        if isinstance(a, tuple):
+            s1.assume(z3.InRe(a[1], byte_re()))
+            yield s1, VBytes(a[1])
+        else:
+            yield s1, a
+
+
+# ================================================================================================
+# BIP32 oracle (written from the BIP32 text; HMAC-SHA512 and the curve come from hmac / coincurve here,
+# and from an independent pure-Python implementation in the bounded reference check further down)
+# ================================================================================================
 
 def ser32(i):
     return i.to_bytes(4, 'big')
+
+
+def ser256(k):
+    return k.to_bytes(32, 'big')
 
 
 def parse256(b):
@@ -243,52 +478,1377 @@ def point_ser(k):
     return cPrivateKey.from_int(k).public_key.format(True)
 
 
+def point_add_ser(pub, il):
+    """serP(point(parse256(il)) + K) for K given as serP(K)"""
+    return cPublicKey(pub).add(il).format(True)
+
+
 def valid_scalar(kb):
     return 0 < parse256(kb) < N
 
 
+def valid_point(pub):
+    if pub[0] != 2 and pub[0] != 3:
+        return False
+    try:
+        cPublicKey(pub)
+    except ValueError:
+        return False
+    return True
+
+
+def spec_sha256d(b):
+    return hashlib.sha256(hashlib.sha256(b).digest()).digest()
+
+
+def spec_hash160(b):
+    return hashlib.new('ripemd160', hashlib.sha256(b).digest()).digest()
+
+
+def ckd_data(key, i):
+    if i >= HARDENED:
+        return b'\x00' + key + ser32(i)
+    return point_ser(parse256(key)) + ser32(i)
+
+
+def spec_ckd_priv(key, chain, i):
+    """BIP32 CKDpriv((k, c), i) -> (k_i as 32 bytes, c_i), or None where BIP32 declares the child invalid"""
+    I = bip32_I(chain, ckd_data(key, i))
+    il = parse256(I[:32])
+    if il >= N or (il + parse256(key)) % N == 0:
+        return None
+    return ser256((il + parse256(key)) % N), I[32:]
+
+
+def spec_ckd_pub(pub, chain, i):
+    """BIP32 CKDpub((K, c), i) for i < 2**31 -> (serP(K_i), c_i) or None where invalid"""
+    I = bip32_I(chain, pub + ser32(i))
+    if parse256(I[:32]) >= N:
+        return None
+    try:
+        child = point_add_ser(pub, I[:32])
+    except ValueError:
+        return None
+    return child, I[32:]
+
+
 KEY = TBytes(length=32)
 CHAIN = TBytes(length=32)
+PUB = TBytes(length=33)
+U32 = TInt(0, 2 ** 32 - 1)
+
+SAMPLE_KEYS = [b'\x00' * 31 + b'\x01', b'\x00\x00' + b'\x7f' * 30, b'\x00' + bytes(range(1, 32)), bytes(range(1, 33)),
+               (N - 1).to_bytes(32, 'big'), hashlib.sha256(b'c06').digest()]
+SAMPLE_INDICES = [0, 1, 2 ** 31 - 1, 2 ** 31, 2 ** 31 + 1, 2 ** 32 - 1]
+SAMPLE_CHAIN = bytes(range(32, 64))
+
+
+# ------------------------------------------------------------------------------------------------ CKD
+
+def _ckd_priv_invalid(key, chain, i, depth):
+    if not valid_scalar(key) or not 0 <= i < 2 ** 32 or depth >= 255:
+        return True
+    return spec_ckd_priv(key, chain, i) is None
 
 
 @proof("C06", "ckd_priv")
 class CkdPriv:
-    """CKDpriv"""
-    inputs = dict(key=KEY, chain=CHAIN, i=TInt(), depth=TInt(0, 255), pn=TInt(0, 2 ** 32 - 1))
-
-    def requires(key):
-        return valid_scalar(key)
+    """CKDpriv: PrivateKey.child(i) is BIP32's child key for every parent key, chain code and index: hardened data
+    0x00||ser256(k)||ser32(i) from 2**31 on, serP(point(k))||ser32(i) below; k_i = (parse256(I_L)+k) mod n; c_i = I_R;
+    depth+1, index and parent link; ValueError exactly for an index outside 0..2**32-1, depth overflow, an invalid
+    parent scalar or BIP32's invalid-child cases"""
+    inputs = dict(key=KEY, chain=CHAIN, i=TInt(), depth=TInt(0, 255), pn=U32)
+    note = "8 keys (leading zero bytes, n-1, 0, n) x 8 indices around 0, 2**31, 2**32 x depth 0/1/254/255"
 
     def run(key, chain, i, depth, pn):
         parent = PrivateKey(Ledger, key, chain, pn, depth)
         child = parent.child(i)
-        return child.private_key_bytes, child.chain_code, child.n, child.depth, child.parent is parent, child.secret_exponent()
+        return (child.private_key_bytes, child.chain_code, child.n, child.depth, child.parent is parent,
+                child.secret_exponent(), child.public_key.pubkey_bytes)
 
     def ensures_key_and_chain_code(key, chain, i, result):
-        data = (b'\x00' + key if i >= HARDENED else point_ser(parse256(key))) + ser32(i)
-        I = bip32_I(chain, data)
-        k_child = (parse256(I[:32]) + parse256(key)) % N
-        return result[5] == k_child and result[0] == k_child.to_bytes(32, 'big') and result[1] == I[32:]
+        expected = spec_ckd_priv(key, chain, i)
+        return expected is not None and result[0] == expected[0] and result[1] == expected[1] \
+            and result[5] == parse256(expected[0])
+
+    def ensures_public_key_is_point_of_child(result):
+        return result[6] == point_ser(result[5])
 
     def ensures_plumbing(i, depth, result):
         return result[2] == i and result[3] == depth + 1 and result[4]
 
-    def _invalid(key, chain, i, depth):
-        if not 0 <= i < 2 ** 32 or depth >= 255:
-            return True
-        data = (b'\x00' + key if i >= HARDENED else point_ser(parse256(key))) + ser32(i)
-        I = bip32_I(chain, data)
-        return parse256(I[:32]) >= N or (parse256(I[:32]) + parse256(key)) % N == 0
+    def ensures_returns_only_valid_children(key, chain, i, depth):
+        return not _ckd_priv_invalid(key, chain, i, depth)
 
-    raises = {ValueError: _invalid}
+    raises = {ValueError: _ckd_priv_invalid}
 
     def samples():
-        for key in (b'\x00' * 31 + b'\x01', b'\x00\x00' + b'\x7f' * 30, bytes(range(1, 33)), (N - 1).to_bytes(32, 'big')):
-            for i in (0, 1, 2 ** 31 - 1, 2 ** 31, 2 ** 31 + 1, 2 ** 32 - 1, 2 ** 32, -1):
+        for key in SAMPLE_KEYS + [b'\x00' * 32, N.to_bytes(32, 'big')]:
+            for i in SAMPLE_INDICES + [2 ** 32, -1]:
                 for depth in (0, 1, 254, 255):
-                    yield dict(key=key, chain=bytes(range(32, 64)), i=i, depth=depth, pn=0)
+                    yield dict(key=key, chain=SAMPLE_CHAIN, i=i, depth=depth, pn=7)
 
 
-TRUSTED = []
-NOT_DECIDED = []
-ASSUMPTIONS = []
+def _ckd_pub_invalid(pub, chain, i, depth):
+    if not valid_point(pub) or not 0 <= i < HARDENED or depth >= 255:
+        return True
+    return spec_ckd_pub(pub, chain, i) is None
+
+
+@proof("C06", "ckd_pub")
+class CkdPub:
+    """CKDpub: PublicKey.child(i) for i < 2**31: data serP(K)||ser32(i), K_i = point(parse256(I_L)) + K, c_i = I_R,
+    plumbing; hardened or negative indices are refused"""
+    inputs = dict(pub=PUB, chain=CHAIN, i=TInt(), depth=TInt(0, 255), pn=U32)
+    note = "public keys of the 6 sample scalars, 2 invalid encodings x 8 indices x depth 0/1/254/255"
+
+    def run(pub, chain, i, depth, pn):
+        parent = PublicKey(Ledger, pub, chain, pn, depth)
+        child = parent.child(i)
+        return child.pubkey_bytes, child.chain_code, child.n, child.depth, child.parent is parent
+
+    def ensures_key_and_chain_code(pub, chain, i, result):
+        expected = spec_ckd_pub(pub, chain, i)
+        return expected is not None and result[0] == expected[0] and result[1] == expected[1]
+
+    def ensures_plumbing(i, depth, result):
+        return result[2] == i and result[3] == depth + 1 and result[4]
+
+    def ensures_returns_only_valid_non_hardened_children(pub, chain, i, depth):
+        return not _ckd_pub_invalid(pub, chain, i, depth)
+
+    raises = {ValueError: _ckd_pub_invalid}
+
+    def samples():
+        pubs = [point_ser(parse256(k)) for k in SAMPLE_KEYS]
+        for pub in pubs + [b'\x04' + pubs[0][1:], b'\x02' + b'\xff' * 32]:
+            for i in SAMPLE_INDICES + [2 ** 32, -1]:
+                for depth in (0, 1, 254, 255):
+                    yield dict(pub=pub, chain=SAMPLE_CHAIN, i=i, depth=depth, pn=7)
+
+
+def _pub_view(k):
+    return k.pubkey_bytes, k.chain_code, k.n, k.depth, k.parent_fingerprint(), k.fingerprint()
+
+
+def _neuter_invalid(key, chain, i):
+    return not valid_scalar(key) or spec_ckd_priv(key, chain, i) is None
+
+
+@proof("C06", "ckd_neuter_commutes")
+class NeuterCommutes:
+    """N(CKDpriv(k, i)) == CKDpub(N(k), i) for every non-hardened i: deriving from the public key alone gives the public
+    key (and chain code, index, depth, fingerprints) of the privately derived child, and succeeds whenever the private
+    derivation succeeds"""
+    inputs = dict(key=KEY, chain=CHAIN, i=TInt(0, 2 ** 31 - 1), depth=TInt(0, 254), pn=U32)
+    note = "6 keys x indices 0, 1, 1000, 2**31-1 x depth 0/3/254"
+
+    def run(key, chain, i, depth, pn):
+        parent = PrivateKey(Ledger, key, chain, pn, depth)
+        via_private = parent.child(i).public_key
+        via_public = parent.public_key.child(i)
+        return _pub_view(via_private), _pub_view(via_public)
+
+    def ensures_same_public_child(result):
+        return result[0] == result[1]
+
+    def ensures_returns_only_valid_children(key, chain, i):
+        return not _neuter_invalid(key, chain, i)
+
+    raises = {ValueError: _neuter_invalid}
+
+    def samples():
+        for key in SAMPLE_KEYS:
+            for i in (0, 1, 1000, 2 ** 31 - 1):
+                for depth in (0, 3, 254):
+                    yield dict(key=key, chain=SAMPLE_CHAIN, i=i, depth=depth, pn=2 ** 32 - 1)
+
+
+def _master_invalid(seed):
+    return not valid_scalar(bip32_I(b'Bitcoin seed', seed)[:32])
+
+
+@proof("C06", "master_key")
+class MasterKey:
+    """master key generation: I = HMAC-SHA512(key='Bitcoin seed', seed), k = I_L, c = I_R, depth 0, index 0, no parent
+    (zero parent fingerprint); invalid I_L (0 or >= n) raises"""
+    inputs = dict(seed=TBytes(minlen=16, maxlen=64))
+    note = "seeds of 16, 17, 32, 33, 63, 64 bytes"
+
+    def run(seed):
+        m = PrivateKey.from_seed(Ledger, seed)
+        return m.private_key_bytes, m.chain_code, m.n, m.depth, m.parent is None, m.parent_fingerprint()
+
+    def ensures_master(seed, result):
+        I = bip32_I(b'Bitcoin seed', seed)
+        return result[0] == I[:32] and result[1] == I[32:] and result[2] == 0 and result[3] == 0 and result[4] \
+            and result[5] == b'\x00\x00\x00\x00'
+
+    def ensures_returns_only_valid_master(seed):
+        return not _master_invalid(seed)
+
+    raises = {ValueError: _master_invalid}
+
+    def samples():
+        for n in (16, 17, 32, 33, 63, 64):
+            yield dict(seed=bytes((i * 11 + n) % 256 for i in range(n)))
+            yield dict(seed=bytes(n))
+
+
+# ------------------------------------------------------------------------------------------------ extended keys
+
+def spec_xkey(version, depth, parent_pub, i, chain, keydata):
+    """BIP32 'Serialization format': 4 version | 1 depth | 4 parent fingerprint | 4 child number | 32 chain code | 33 key"""
+    fp = spec_hash160(parent_pub)[:4] if parent_pub is not None else b'\x00\x00\x00\x00'
+    return version + bytes([depth]) + fp + ser32(i) + chain + keydata
+
+
+def _layout_invalid(pkey, key):
+    return not (valid_scalar(pkey) and valid_scalar(key))
+
+
+@proof("C06", "xkey_layout")
+class XkeyLayout:
+    """the 78-byte serialisation of private and public extended keys (child with a parent, and a parentless key):
+    version, depth, fingerprint = first 4 bytes of HASH160(serP(K_parent)) or zero, ser32(index), chain code,
+    0x00||ser256(k) resp. serP(K)"""
+    inputs = dict(pkey=KEY, pchain=CHAIN, key=KEY, chain=CHAIN, i=U32, depth=TInt(0, 254), pn=U32)
+    note = "sample scalars as parent/child, index extremes, depth 0/254"
+
+    def ensures_returns_only_valid_keys(pkey, key):
+        return not _layout_invalid(pkey, key)
+
+    raises = {ValueError: _layout_invalid}
+
+    def run(pkey, pchain, key, chain, i, depth, pn):
+        parent = PrivateKey(Ledger, pkey, pchain, pn, depth)
+        child = PrivateKey(Ledger, key, chain, i, depth + 1, parent)
+        orphan = PrivateKey(TestNetLedger, key, chain, i, depth)
+        return (child.extended_key(), child.public_key.extended_key(), orphan.extended_key(), orphan.public_key.extended_key(),
+                parent.fingerprint(), parent.identifier())
+
+    def ensures_private_with_parent(pkey, key, chain, i, depth, result):
+        return result[0] == spec_xkey(XPRV_MAIN, depth + 1, point_ser(parse256(pkey)), i, chain, b'\x00' + key) \
+            and len(result[0]) == 78
+
+    def ensures_public_with_parent(pkey, key, chain, i, depth, result):
+        return result[1] == spec_xkey(XPUB_MAIN, depth + 1, point_ser(parse256(pkey)), i, chain, point_ser(parse256(key))) \
+            and len(result[1]) == 78
+
+    def ensures_parentless(key, chain, i, depth, result):
+        return result[2] == spec_xkey(XPRV_TEST, depth, None, i, chain, b'\x00' + key) \
+            and result[3] == spec_xkey(XPUB_TEST, depth, None, i, chain, point_ser(parse256(key)))
+
+    def ensures_fingerprint(pkey, result):
+        return result[5] == spec_hash160(point_ser(parse256(pkey))) and result[4] == result[5][:4]
+
+    def samples():
+        for pkey in SAMPLE_KEYS[:3]:
+            for key in SAMPLE_KEYS:
+                for i in (0, 1, 2 ** 31 - 1, 2 ** 31, 2 ** 32 - 1):
+                    for depth in (0, 254):
+                        yield dict(pkey=pkey, pchain=SAMPLE_CHAIN, key=key, chain=bytes(range(64, 96)), i=i, depth=depth, pn=3)
+
+
+def _key_view(k):
+    if isinstance(k, PrivateKey):
+        return 'private', k.private_key_bytes, k.chain_code, k.n, k.depth, k.parent is None, k.ledger
+    return 'public', k.pubkey_bytes, k.chain_code, k.n, k.depth, k.parent is None, k.ledger
+
+
+def _xkey_refused(version, keydata):
+    if version == XPRV_MAIN:
+        return keydata[0] != 0 or not valid_scalar(keydata[1:])
+    if version == XPUB_MAIN:
+        return not valid_point(keydata)
+    return True
+
+
+@proof("C06", "xkey_decode")
+class XkeyDecode:
+    """_from_extended_key on every 78-byte string version|depth|fingerprint|index|chain|keydata: the version selects
+    private/public, every field is read from its BIP32 offset, a private key needs the 0x00 padding byte; unknown
+    versions, bad padding, invalid key material are refused with ValueError"""
+    inputs = dict(version=TBytes(length=4), depth=TInt(0, 255), pfp=TBytes(length=4), i=U32, chain=CHAIN, keydata=PUB)
+    note = "both versions + 2 foreign ones x valid/invalid key material x depth/index extremes"
+
+    def run(version, depth, pfp, i, chain, keydata):
+        raw = version + bytes([depth]) + pfp + ser32(i) + chain + keydata
+        return _key_view(_from_extended_key(Ledger, raw))
+
+    def ensures_fields(version, depth, i, chain, keydata, result):
+        kind = 'private' if version == XPRV_MAIN else 'public'
+        material = keydata[1:] if version == XPRV_MAIN else keydata
+        return (version == XPRV_MAIN or version == XPUB_MAIN) and result[0] == kind and result[1] == material \
+            and result[2] == chain and result[3] == i and result[4] == depth and result[5] and result[6] is Ledger
+
+    def ensures_accepts_only_well_formed_keys(version, keydata):
+        return not _xkey_refused(version, keydata)
+
+    raises = {ValueError: _xkey_refused}
+
+    def samples():
+        good_priv = [b'\x00' + k for k in SAMPLE_KEYS]
+        good_pub = [point_ser(parse256(k)) for k in SAMPLE_KEYS]
+        bad = [b'\x01' + SAMPLE_KEYS[0], b'\x00' + bytes(32), b'\x00' + N.to_bytes(32, 'big'), b'\x04' + good_pub[0][1:],
+               b'\x02' + b'\xff' * 32]
+        for version in (XPRV_MAIN, XPUB_MAIN, XPRV_TEST, b'\x00\x00\x00\x00'):
+            for keydata in good_priv + good_pub + bad:
+                for depth, i in ((0, 0), (255, 2 ** 32 - 1), (1, 2 ** 31)):
+                    yield dict(version=version, depth=depth, pfp=b'\xde\xad\xbe\xef', i=i, chain=SAMPLE_CHAIN, keydata=keydata)
+
+
+@proof("C06", "xkey_decode_length")
+class XkeyDecodeLength:
+    """_from_extended_key refuses every byte string that is not 78 bytes long, and anything that is not bytes"""
+    inputs = dict(raw=TOneOf(TBytes(maxlen=200), TStr(), TNone()))
+    note = "lengths 0, 77, 79, 82 and a str"
+
+    def requires(raw):
+        return not isinstance(raw, bytes) or len(raw) != 78
+
+    def run(raw):
+        return _key_view(_from_extended_key(Ledger, raw))
+
+    def ensures_never_returns(result):
+        return False
+
+    raises = {ValueError: True, TypeError: True}
+
+    def samples():
+        for raw in (b'', XPRV_MAIN + bytes(73), XPRV_MAIN + bytes(75), XPUB_MAIN + bytes(78), 'xprv', None):
+            yield dict(raw=raw)
+
+
+def _roundtrip_invalid(pkey, key, with_parent):
+    return not valid_scalar(key) or (with_parent and not valid_scalar(pkey))
+
+
+@proof("C06", "xkey_roundtrip")
+class XkeyRoundTrip:
+    """encode -> decode round trip of extended keys: _from_extended_key(key.extended_key()) has the same kind, key
+    material, chain code, index and depth, for private and public keys with or without parent; a parentless key
+    re-encodes to the identical 78 bytes"""
+    inputs = dict(pkey=KEY, key=KEY, chain=CHAIN, i=U32, depth=TInt(0, 254), with_parent=TBool())
+    note = "sample scalars, index extremes, with and without parent"
+
+    def ensures_returns_only_valid_keys(pkey, key, with_parent):
+        return not _roundtrip_invalid(pkey, key, with_parent)
+
+    raises = {ValueError: _roundtrip_invalid}
+
+    def run(pkey, key, chain, i, depth, with_parent):
+        parent = None if not with_parent else PrivateKey(Ledger, pkey, chain, 0, depth)
+        k = PrivateKey(Ledger, key, chain, i, depth + 1, parent)
+        raw_priv, raw_pub = k.extended_key(), k.public_key.extended_key()
+        back_priv, back_pub = _from_extended_key(Ledger, raw_priv), _from_extended_key(Ledger, raw_pub)
+        return (_key_view(k), _key_view(back_priv), _key_view(k.public_key), _key_view(back_pub),
+                raw_priv, back_priv.extended_key(), raw_pub, back_pub.extended_key())
+
+    def ensures_same_key_material(result):
+        return result[0][:5] == result[1][:5] and result[2][:5] == result[3][:5]
+
+    def ensures_parentless_reencodes_identically(with_parent, result):
+        return with_parent or (result[4] == result[5] and result[6] == result[7])
+
+    def samples():
+        for key in SAMPLE_KEYS:
+            for i in (0, 2 ** 31, 2 ** 32 - 1):
+                for wp in (False, True):
+                    yield dict(pkey=SAMPLE_KEYS[3], key=key, chain=SAMPLE_CHAIN, i=i, depth=0, with_parent=wp)
+
+
+# ------------------------------------------------------------------------------------------------ Base58Check framing
+
+_DECODE_CHECK = Base58.__dict__['decode_check'].__func__
+_ENCODE_CHECK = Base58.__dict__['encode_check'].__func__
+
+
+class _Numeral:
+    """stands for the Base58 numeral conversion in the framing proofs: decode returns an arbitrary byte string fixed by
+    the harness, encode records what it is given"""
+
+    def __init__(self, raw):
+        self.raw = raw
+        self.asked = []
+        self.given = []
+
+    def decode(self, txt):
+        self.asked.append(txt)
+        return self.raw
+
+    def encode(self, be_bytes):
+        self.given.append(be_bytes)
+        return 'numeral'
+
+
+@proof("C06", "decode_check")
+class DecodeCheck:
+    """Base58Check verification for every byte string the numeral decoder can deliver: the payload is everything but
+    the last four bytes and is returned only if those four bytes are the first four bytes of SHA256(SHA256(payload));
+    every other string is rejected with Base58Error"""
+    inputs = dict(raw=TBytes(maxlen=120), txt=TStr())
+    note = "valid frames of payload length 0, 1, 21, 78; last/first checksum byte flipped; frames shorter than 4 bytes"
+
+    def run(raw, txt):
+        codec = _Numeral(raw)
+        return _DECODE_CHECK(codec, txt), codec.asked
+
+    def ensures_payload_with_valid_checksum(raw, txt, result):
+        return len(raw) >= 4 and result[0] == raw[:len(raw) - 4] and raw[len(raw) - 4:] == spec_sha256d(result[0])[:4] \
+            and result[1] == [txt]
+
+    def _bad_checksum(raw):
+        return len(raw) < 4 or raw[len(raw) - 4:] != spec_sha256d(raw[:len(raw) - 4])[:4]
+
+    raises = {Base58Error: _bad_checksum}
+
+    def samples():
+        for n in (0, 1, 21, 78):
+            payload = bytes((i * 5 + n) % 256 for i in range(n))
+            good = payload + spec_sha256d(payload)[:4]
+            yield dict(raw=good, txt='t')
+            yield dict(raw=good[:-1] + bytes([good[-1] ^ 1]), txt='t')
+            yield dict(raw=good[:-4] + bytes([good[-4] ^ 0x80]) + good[-3:], txt='t')
+            yield dict(raw=payload + spec_sha256d(payload)[28:], txt='t')
+            if n:
+                yield dict(raw=bytes([good[0] ^ 1]) + good[1:], txt='t')
+                yield dict(raw=payload + spec_sha256d(good)[:4], txt='t')
+        for raw in (b'', b'\x00', b'\x5d\xf6\xe0'):
+            yield dict(raw=raw, txt='t')
+
+
+@proof("C06", "encode_check")
+class EncodeCheck:
+    """Base58Check framing: the numeral encoder is given payload || first four bytes of SHA256(SHA256(payload))"""
+    inputs = dict(payload=TBytes(maxlen=120))
+    note = "payload lengths 0, 1, 21, 78"
+
+    def run(payload):
+        codec = _Numeral(b'')
+        return _ENCODE_CHECK(codec, payload), codec.given
+
+    def ensures_frame(payload, result):
+        return result[0] == 'numeral' and len(result[1]) == 1 and result[1][0] == payload + spec_sha256d(payload)[:4]
+
+    def samples():
+        for n in (0, 1, 21, 78):
+            yield dict(payload=bytes((i * 5 + n) % 256 for i in range(n)))
+
+
+# ------------------------------------------------------------------------------------------------ addresses, key strings
+# (deductive modulo the Base58 numeral contract)
+
+@proof("C06", "address")
+class Address:
+    """address = Base58(prefix || hash160 || checksum[:4]) with the ledger's P2PKH prefix (0x55 main net, 0x6f test net),
+    script addresses use the script prefix (0x7a); address_to_hash160 recovers the hash; public_key_to_address hashes
+    the public key with HASH160"""
+    inputs = dict(h160=TBytes(length=20), pub=PUB)
+    note = "hashes 00..00, ff..ff, leading zero bytes, random"
+
+    def run(h160, pub):
+        a = Ledger.hash160_to_address(h160)
+        return (a, Ledger.address_to_hash160(a), TestNetLedger.hash160_to_address(h160), Ledger.public_key_to_address(pub),
+                Ledger.hash160_to_script_address(h160))
+
+    def ensures_is_base58check_of_prefixed_hash(h160, result):
+        body = b'\x55' + h160
+        tbody = b'\x6f' + h160
+        return result[0] == spec_b58encode(body + spec_sha256d(body)[:4]) \
+            and result[2] == spec_b58encode(tbody + spec_sha256d(tbody)[:4])
+
+    def ensures_roundtrip(h160, result):
+        return result[1] == h160
+
+    def ensures_public_key_address(pub, result):
+        body = b'\x55' + spec_hash160(pub)
+        return result[3] == spec_b58encode(body + spec_sha256d(body)[:4])
+
+    def ensures_script_address_uses_script_prefix(h160, result):
+        body = b'\x7a' + h160
+        return result[4] == spec_b58encode(body + spec_sha256d(body)[:4])
+
+    def samples():
+        for h in (bytes(20), b'\xff' * 20, b'\x00\x00' + bytes(range(18)), hashlib.sha256(b'a').digest()[:20],
+                  hashlib.sha256(b'b').digest()[:20]):
+            yield dict(h160=h, pub=point_ser(parse256(SAMPLE_KEYS[3])))
+
+
+@proof("C06", "address_check")
+class AddressCheck:
+    """an address string = Base58(prefix || hash160 || any four bytes): decode_check returns prefix || hash160 exactly when
+    the four bytes are the checksum and raises Base58Error for every other value; a valid address is classified by its
+    prefix byte (is_pubkey_address / is_script_address)"""
+    inputs = dict(h160=TBytes(length=20), script=TBool(), check=TBytes(length=4))
+    note = "valid checksum, each checksum byte flipped, zero checksum x both prefixes"
+
+    def run(h160, script, check):
+        body = (b'\x7a' if script else b'\x55') + h160
+        address = spec_b58encode(body + check)
+        return Base58.decode_check(address), Ledger.is_pubkey_address(address), Ledger.is_script_address(address)
+
+    def ensures_accepted_only_with_right_checksum(h160, script, check, result):
+        body = (b'\x7a' if script else b'\x55') + h160
+        return check == spec_sha256d(body)[:4] and result[0] == body
+
+    def ensures_classified_by_prefix(script, result):
+        return result[1] == (not script) and result[2] == script
+
+    def _wrong_checksum(h160, script, check):
+        return check != spec_sha256d((b'\x7a' if script else b'\x55') + h160)[:4]
+
+    raises = {Base58Error: _wrong_checksum}
+
+    def samples():
+        for h in (bytes(20), b'\xff' * 20, hashlib.sha256(b'a').digest()[:20]):
+            for script in (False, True):
+                good = spec_sha256d((b'\x7a' if script else b'\x55') + h)[:4]
+                yield dict(h160=h, script=script, check=good)
+                for k in range(4):
+                    yield dict(h160=h, script=script, check=good[:k] + bytes([good[k] ^ 0x10]) + good[k + 1:])
+                yield dict(h160=h, script=script, check=bytes(4))
+
+
+def _xkey_string_invalid(key):
+    return not valid_scalar(key)
+
+
+@proof("C06", "xkey_string")
+class XkeyString:
+    """extended_key_string() of a private and of a public key is the Base58Check string of the 78-byte serialisation"""
+    inputs = dict(key=KEY, chain=CHAIN, i=U32, depth=TInt(0, 255))
+    note = "sample scalars, index extremes, depth 0/255"
+
+    def run(key, chain, i, depth):
+        k = PrivateKey(Ledger, key, chain, i, depth)
+        return k.extended_key_string(), k.public_key.extended_key_string()
+
+    def ensures_string_is_base58check_of_serialisation(key, chain, i, depth, result):
+        raw_priv = spec_xkey(XPRV_MAIN, depth, None, i, chain, b'\x00' + key)
+        raw_pub = spec_xkey(XPUB_MAIN, depth, None, i, chain, point_ser(parse256(key)))
+        return result[0] == spec_b58encode(raw_priv + spec_sha256d(raw_priv)[:4]) \
+            and result[1] == spec_b58encode(raw_pub + spec_sha256d(raw_pub)[:4])
+
+    def ensures_returns_only_valid_keys(key):
+        return not _xkey_string_invalid(key)
+
+    raises = {ValueError: _xkey_string_invalid}
+
+    def samples():
+        for key in SAMPLE_KEYS + [bytes(32)]:
+            for i in (0, 2 ** 31, 2 ** 32 - 1):
+                for depth in (0, 255):
+                    yield dict(key=key, chain=SAMPLE_CHAIN, i=i, depth=depth)
+
+
+def _xkey_string_refused(private, keydata):
+    if private:
+        return keydata[0] != 0 or not valid_scalar(keydata[1:])
+    return not valid_point(keydata)
+
+
+@proof("C06", "xkey_string_decode")
+class XkeyStringDecode:
+    """from_extended_key_string on Base58(version|depth|fingerprint|index|chain|keydata || any four bytes): Base58Error
+    unless the four bytes are the checksum, then the same fields as _from_extended_key (kind by version, key material,
+    chain code, index, depth)"""
+    inputs = dict(private=TBool(), depth=TInt(0, 255), pfp=TBytes(length=4), i=U32, chain=CHAIN, keydata=PUB, check=TBytes(length=4))
+    note = "private/public x valid/invalid key material x right/wrong checksum"
+    timeout = 5         # the slicing obligations are decided by cvc5 in well under a second; do not wait 16 s for the two z3
+
+    def run(private, depth, pfp, i, chain, keydata, check):
+        raw = (XPRV_MAIN if private else XPUB_MAIN) + bytes([depth]) + pfp + ser32(i) + chain + keydata
+        return _key_view(from_extended_key_string(Ledger, spec_b58encode(raw + check)))
+
+    def ensures_fields(private, depth, pfp, i, chain, keydata, check, result):
+        raw = (XPRV_MAIN if private else XPUB_MAIN) + bytes([depth]) + pfp + ser32(i) + chain + keydata
+        return check == spec_sha256d(raw)[:4] and result[0] == ('private' if private else 'public') \
+            and result[1] == (keydata[1:] if private else keydata) and result[2] == chain and result[3] == i and result[4] == depth
+
+    def _wrong_checksum(private, depth, pfp, i, chain, keydata, check):
+        raw = (XPRV_MAIN if private else XPUB_MAIN) + bytes([depth]) + pfp + ser32(i) + chain + keydata
+        return check != spec_sha256d(raw)[:4]
+
+    def ensures_accepts_only_well_formed_keys(private, keydata):
+        return not _xkey_string_refused(private, keydata)
+
+    raises = {Base58Error: _wrong_checksum, ValueError: _xkey_string_refused}
+
+    def samples():
+        for private in (True, False):
+            goods = [b'\x00' + k for k in SAMPLE_KEYS[:3]] if private else [point_ser(parse256(k)) for k in SAMPLE_KEYS[:3]]
+            for keydata in goods + [b'\x01' + SAMPLE_KEYS[0], b'\x02' + b'\xff' * 32]:
+                for depth, i in ((0, 0), (255, 2 ** 32 - 1)):
+                    raw = (XPRV_MAIN if private else XPUB_MAIN) + bytes([depth]) + b'abcd' + ser32(i) + SAMPLE_CHAIN + keydata
+                    good = spec_sha256d(raw)[:4]
+                    for check in (good, bytes([good[0] ^ 1]) + good[1:], good[:3] + bytes([good[3] ^ 0x80])):
+                        yield dict(private=private, depth=depth, pfp=b'abcd', i=i, chain=SAMPLE_CHAIN, keydata=keydata, check=check)
+
+
+# ------------------------------------------------------------------------------------------------ address chains
+
+class _Key:
+    """stands for an extended public key in the gap proof; its identity is its derivation path"""
+
+    def __init__(self, path):
+        self.path = path
+        self.n = path[len(path) - 1] if len(path) else 0
+        self.address = ('address of', path)
+
+    def child(self, i):
+        return _Key(self.path + (i,))
+
+
+class _Db:
+    """call-site contract of the wallet database as seen by the address managers"""
+
+    def __init__(self, rows):
+        self.rows = rows
+        self.queries = []
+        self.added = []
+
+    async def get_addresses(self, read_only=False, **constraints):
+        self.queries.append(constraints)
+        return self.rows
+
+    async def add_keys(self, account, chain, keys):
+        self.added.append((account, chain, keys))
+
+
+class _FakeLedger:
+    def __init__(self, db):
+        self.db = db
+        self.announced = []
+
+    async def announce_addresses(self, manager, addresses):
+        self.announced.append((manager, addresses))
+
+
+class _FakeAccount:
+    def __init__(self, ledger, private_key, public_key):
+        self.ledger = ledger
+        self.private_key = private_key
+        self.public_key = public_key
+
+
+def _same(a, b):
+    """element-wise equality of two sequences of scalars / tuples"""
+    if len(a) != len(b):
+        return False
+    ok = True
+    for x, y in zip(a, b):
+        ok = ok and x == y
+    return ok
+
+
+def make_gap_proof(gap, nrows):
+    types = dict(chain=TInt(0, 1))
+    for r in range(nrows):
+        types[f"used{r}"] = TInt(0)
+        types[f"n{r}"] = TInt(0, 2 ** 31 - 2)
+
+    def rows_of(kw):
+        return [(kw[f"used{r}"], kw[f"n{r}"]) for r in range(nrows)]
+
+    def requires(**kw):
+        # database contract: rows come ordered by n descending
+        ok = True
+        rows = rows_of(kw)
+        for r in range(1, nrows):
+            ok = ok and rows[r - 1][1] > rows[r][1]
+        return ok
+
+    async def run(**kw):
+        chain = kw['chain']
+        db = _Db([{'used_times': u, 'pubkey': _Key((chain, n)), 'address': 'x'} for (u, n) in rows_of(kw)])
+        ledger = _FakeLedger(db)
+        account = _FakeAccount(ledger, None, _Key(()))
+        manager = HierarchicalDeterministic(account, chain, gap, 1)
+        returned = await manager.ensure_address_gap()
+        stored = []
+        for (a, c, keys) in db.added:
+            stored.append((a is account, c, len(keys)))
+            for k in keys:
+                stored.append(k.path)
+        announced = []
+        for (m, addrs) in ledger.announced:
+            announced.append(m is manager)
+            for a in addrs:
+                announced.append(a)
+        query = [(q['limit'], q['order_by'], q['chain'], len(q['accounts']), q['accounts'][0] is account) for q in db.queries]
+        return list(returned), stored, announced, query, manager.address_generator_lock.locked()
+
+    def expected(kw):
+        rows = rows_of(kw)
+        existing = 0
+        counting = True
+        for (u, n) in rows:
+            if counting and u == 0:
+                existing += 1
+            else:
+                counting = False
+        start = rows[0][1] + 1 if nrows else 0
+        return [(kw['chain'], start + j) for j in range(gap - existing)]
+
+    def ensures_generates_missing_keys_at_consecutive_indices(result, **kw):
+        paths = expected(kw)
+        if not paths:
+            return len(result[0]) == 0 and len(result[1]) == 0 and len(result[2]) == 0
+        return _same(result[0], [('address of', p) for p in paths]) \
+            and _same(result[1], [(True, kw['chain'], len(paths))] + paths) \
+            and _same(result[2], [True] + [('address of', p) for p in paths])
+
+    def ensures_asks_for_the_last_gap_addresses(result, **kw):
+        return _same(result[3], [(gap, 'n desc', kw['chain'], 1, True)]) and not result[4]
+
+    import inspect
+    params = [inspect.Parameter(n, inspect.Parameter.POSITIONAL_OR_KEYWORD) for n in types]
+    run.__signature__ = inspect.Signature(params)
+    requires.__signature__ = inspect.Signature(params)
+    for f in (ensures_generates_missing_keys_at_consecutive_indices, ensures_asks_for_the_last_gap_addresses):
+        f.__signature__ = inspect.Signature([inspect.Parameter('result', inspect.Parameter.POSITIONAL_OR_KEYWORD)] + params)
+
+    def samples():
+        import itertools
+        for chain in (0, 1):
+            for used in itertools.product((0, 1, 3), repeat=nrows):
+                for top in (nrows - 1, nrows + 5, 2 ** 31 - 2):
+                    if top - nrows + 1 < 0:
+                        continue
+                    d = dict(chain=chain)
+                    for r in range(nrows):
+                        d[f"used{r}"] = used[r]
+                        d[f"n{r}"] = top - r
+                    yield d
+
+    body = dict(inputs=types, requires=staticmethod(requires), run=staticmethod(run), samples=staticmethod(samples),
+                ensures_generates_missing_keys_at_consecutive_indices=staticmethod(ensures_generates_missing_keys_at_consecutive_indices),
+                ensures_asks_for_the_last_gap_addresses=staticmethod(ensures_asks_for_the_last_gap_addresses),
+                note=f"gap {gap}, {nrows} known addresses, used counts 0/1/3 in every position, top index small/large",
+                __doc__=f"ensure_address_gap with gap {gap} and {nrows} known addresses (any used counts, any descending indices): "
+                        f"exactly gap - (number of trailing unused addresses) new keys, children (chain, index) of the account "
+                        f"public key at consecutive indices after the highest known one, stored and announced in that order; "
+                        f"nothing when the gap is already there")
+    proof("C06", f"address_gap[gap={gap},known={nrows}]")(type('GapProof', (), body))
+
+
+for _gap, _nrows in ((1, 0), (1, 1), (2, 0), (2, 1), (2, 2), (3, 0), (3, 2), (3, 3), (6, 0), (6, 5), (6, 6)):
+    make_gap_proof(_gap, _nrows)
+
+
+@proof("C06", "chain_keys_two_accounts")
+class ChainKeysTwoAccounts:
+    """get_private_key / get_public_key of a chain follow the path (own account, chain, index) whatever another
+    account, or the same account, derived before: two accounts used alternately (key objects are path-recording
+    stand-ins here; the real keys go through the same calls in the bounded check `account.same_mnemonic_same_addresses`)"""
+    inputs = dict(chain=TInt(0, 1), i=TInt(0, 2 ** 31 - 1), j=TInt(0, 2 ** 31 - 1))
+    note = "chain 0/1 x indices 0, 1, 19, 2**31-1"
+
+    def run(chain, i, j):
+        ledger = _FakeLedger(_Db([]))
+        acc_a = _FakeAccount(ledger, _Key(('a-private',)), _Key(('a-public',)))
+        acc_b = _FakeAccount(ledger, _Key(('b-private',)), _Key(('b-public',)))
+        man_a = HierarchicalDeterministic(acc_a, chain, 20, 1)
+        man_b = HierarchicalDeterministic(acc_b, chain, 20, 1)
+        a1 = man_a.get_private_key(i)
+        b1 = man_b.get_private_key(i)
+        a2 = man_a.get_private_key(j)
+        b2 = man_b.get_private_key(j)
+        pa = man_a.get_public_key(i)
+        pb = man_b.get_public_key(i)
+        pa2 = man_a.get_public_key(j)
+        return a1.path, b1.path, a2.path, b2.path, pa.path, pb.path, pa2.path, man_a.public_key.path, man_b.public_key.path
+
+    def ensures_private_keys_follow_own_account(chain, i, j, result):
+        return result[0] == ('a-private', chain, i) and result[1] == ('b-private', chain, i) \
+            and result[2] == ('a-private', chain, j) and result[3] == ('b-private', chain, j)
+
+    def ensures_public_keys_follow_own_account(chain, i, j, result):
+        return result[4] == ('a-public', chain, i) and result[5] == ('b-public', chain, i) and result[6] == ('a-public', chain, j) \
+            and result[7] == ('a-public', chain) and result[8] == ('b-public', chain)
+
+    def samples():
+        for chain in (0, 1):
+            for i, j in ((0, 1), (1, 0), (19, 19), (2 ** 31 - 1, 5)):
+                yield dict(chain=chain, i=i, j=j)
+
+
+# ================================================================================================
+# Bounded stand-ins (run-time contract checks of the real functions with CPython; no deductive part)
+# ================================================================================================
+
+def _b58_samples():
+    import random
+    rnd = random.Random(6)
+    out = [b'\x01', b'\xff', b'\x00\x01', b'\x00\x00\x01', b'\x39', b'\x3a', b'\x00\x3a', b'\x0d\x24', b'\x0d\x23', b'\x01\x00', b'\x00\x01\x00',
+           b'\x00' * 10 + b'\x01', b'\xff' * 40, bytes(range(256))]
+    for n in (1, 2, 3, 4, 5, 8, 20, 21, 25, 32, 33, 64, 78, 82, 100):
+        for lead in (0, 1, 3):
+            body = bytes(rnd.randrange(1, 256) for _ in range(n))
+            out.append(b'\x00' * lead + body)
+            out.append(b'\x00' * lead + body[:-1] + b'\x00')
+    return out
+
+
+@proof("C06", "base58.numeral")
+class Base58Numeral:
+    """BOUNDED stand-in for the contract of the Base58 numeral conversion used modularly above (the loops have symbolic
+    trip counts and a non-linear invariant): Base58.encode(b) is the Base58 numeral of b with one '1' per leading zero
+    byte, and Base58.decode inverts it when b contains a non-zero byte"""
+    bounded_only = True
+    inputs = dict(b=TBytes())
+    note = "104 byte strings: lengths 1..256, 0/1/3 leading zero bytes, trailing zero byte, digit boundaries 57/58/3363/3364"
+
+    def requires(b):
+        return any(x != 0 for x in b)
+
+    def run(b):
+        txt = Base58.encode(b)
+        return txt, Base58.decode(txt), Base58.encode(bytearray(b)), Base58.decode(txt.encode())
+
+    def ensures_is_the_numeral(b, result):
+        return result[0] == spec_b58encode(b) and result[2] == result[0] and all(c in B58_ALPHABET for c in result[0])
+
+    def ensures_decode_inverts(b, result):
+        return result[1] == b and result[3] == b and spec_b58decode(result[0]) == b
+
+    def samples():
+        for b in _b58_samples():
+            yield dict(b=b)
+
+
+@proof("C06", "base58.refuses")
+class Base58Refuses:
+    """BOUNDED: strings that are not Base58 numerals (characters outside the alphabet, the empty string) are refused"""
+    bounded_only = True
+    inputs = dict(txt=TStr())
+    note = "empty string and 14 strings with 0, O, I, l, blanks, signs, non-ASCII characters at the start / middle / end"
+
+    def run(txt):
+        return Base58.decode(txt)
+
+    def ensures_never_returns(result):
+        return False
+
+    raises = {Base58Error: True}
+
+    def samples():
+        for txt in ('', '0', 'O', 'I', 'l', '1O', 'abc0', 'l1', ' 2', '2 ', '2\n', '-2', '+', 'é', '１'):
+            yield dict(txt=txt)
+
+
+def _corruptions(s):
+    """single character substitutions and adjacent transpositions of a Base58 string (a bounded neighbourhood)"""
+    out = []
+    for pos in sorted(set([0, 1, len(s) // 2, len(s) - 2, len(s) - 1])):
+        if 0 <= pos < len(s):
+            for repl in ('1', '2', 'z', B58_ALPHABET[(B58_ALPHABET.index(s[pos]) + 1) % 58]):
+                if repl != s[pos]:
+                    out.append(s[:pos] + repl + s[pos + 1:])
+            if pos + 1 < len(s) and s[pos] != s[pos + 1]:
+                out.append(s[:pos] + s[pos + 1] + s[pos] + s[pos + 2:])
+    out.append(s[:-1])
+    out.append(s + '1')
+    out.append('1' + s)
+    return out
+
+
+@proof("C06", "base58check.roundtrip")
+class Base58CheckRoundTrip:
+    """BOUNDED end-to-end Base58Check (framing proved above, numeral bounded): decode_check(encode_check(p)) == p for
+    payloads of every kind used by the wallet, the string is the Base58 numeral of p || checksum, and every string in a
+    neighbourhood of single-character edits is rejected"""
+    bounded_only = True
+    inputs = dict(payload=TBytes())
+    note = "payloads of length 0, 1, 21 (addresses), 34, 78 (extended keys), 100 with 0..3 leading zero bytes; 20-25 edits each"
+
+    def run(payload):
+        s = Base58.encode_check(payload)
+        rejected = 0
+        edits = _corruptions(s)
+        for t in edits:
+            try:
+                Base58.decode_check(t)
+            except Base58Error:
+                rejected += 1
+        return s, Base58.decode_check(s), rejected, len(edits)
+
+    def ensures_roundtrip(payload, result):
+        return result[1] == payload and result[0] == spec_b58encode(payload + spec_sha256d(payload)[:4])
+
+    def ensures_edits_rejected(result):
+        return result[2] == result[3]
+
+    def samples():
+        import random
+        rnd = random.Random(58)
+        for n in (0, 1, 21, 34, 78, 100):
+            for lead in (0, 1, 3):
+                if lead <= n:
+                    yield dict(payload=b'\x00' * lead + bytes(rnd.randrange(256) for _ in range(n - lead)))
+        yield dict(payload=b'\x55' + bytes(20))
+        yield dict(payload=b'\x00' * 21)
+
+
+WORDS = Mnemonic().words
+
+
+@proof("C06", "mnemonic.roundtrip")
+class MnemonicRoundTrip:
+    """BOUNDED (loop over the base-2048 digits, symbolic trip count): mnemonic_decode(mnemonic_encode(i)) == i for
+    i > 0, the encoding is the base-len(words) digits of i, least significant first, one word per digit; the word list
+    is duplicate-free and whitespace-free (checked on the real list each run)"""
+    bounded_only = True
+    inputs = dict(i=TInt(1))
+    note = "i = 1..4100, around 2048**k for k = 1..13, 2**128..2**136 seeds, 2000 seeded random numbers up to 2**264"
+
+    def run(i):
+        m = Mnemonic()
+        text = m.mnemonic_encode(i)
+        return text, m.mnemonic_decode(text), m.mnemonic_decode('  ' + text.replace(' ', '\n ') + ' ')
+
+    def ensures_decodes_back(i, result):
+        return result[1] == i and result[2] == i
+
+    def ensures_words_are_the_digits(i, result):
+        digits = []
+        n = i
+        while n > 0:
+            digits.append(n % 2048)
+            n //= 2048
+        return result[0].split(' ') == [WORDS[d] for d in digits]
+
+    def ensures_word_list_is_a_numeral_alphabet(result):
+        return len(WORDS) == 2048 and len(set(WORDS)) == 2048 and all(w and w == w.strip() and len(w.split()) == 1 for w in WORDS)
+
+    def samples():
+        import random
+        rnd = random.Random(2048)
+        for i in range(1, 4101):
+            yield dict(i=i)
+        for k in range(1, 14):
+            for d in (-1, 0, 1):
+                yield dict(i=2048 ** k + d)
+                yield dict(i=2047 * 2048 ** k + d)
+        for bits in (128, 131, 132, 133, 136):
+            yield dict(i=2 ** bits - 1)
+            yield dict(i=2 ** bits)
+        for _ in range(2000):
+            yield dict(i=rnd.randrange(1, 2 ** rnd.choice((11, 22, 64, 132, 264))))
+
+
+@proof("C06", "mnemonic.seed_stretching")
+class SeedStretching:
+    """BOUNDED: mnemonic_to_seed is PBKDF2-HMAC-SHA512 (2048 rounds, 64 bytes) of the normalised phrase with the normalised
+    passphrase as salt (compared with hashlib's implementation), hence a function of the phrase: equal phrases give equal seeds"""
+    bounded_only = True
+    inputs = dict(phrase=TStr(), passphrase=TStr())
+    note = "6 phrases (12/13 words, extra blanks, upper case) x 3 passphrases"
+
+    def run(phrase, passphrase):
+        return Mnemonic.mnemonic_to_seed(phrase, passphrase), Mnemonic.mnemonic_to_seed(phrase, passphrase)
+
+    def ensures_is_pbkdf2(phrase, passphrase, result):
+        plain = ' '.join(phrase.lower().split())
+        return result[0] == hashlib.pbkdf2_hmac('sha512', plain.encode(), passphrase.encode(), 2048, 64) and len(result[0]) == 64
+
+    def ensures_deterministic(result):
+        return result[0] == result[1]
+
+    def samples():
+        m = Mnemonic()
+        phrases = [m.mnemonic_encode(2 ** 131 + 12345), m.mnemonic_encode(2 ** 140 + 99), 'carbon smart garage balance margin twelve chest '
+                   'sword toast envelope bottom stomach absent']
+        phrases += ['  ' + phrases[0].replace(' ', '   ') + ' ', phrases[1].upper(), phrases[2].replace(' ', '\n')]
+        for ph in phrases:
+            for pw in ('lbryum', '', 'correct horse'):
+                yield dict(phrase=ph, passphrase=pw)
+
+
+# ---- independent reference implementation of BIP32 (own secp256k1 arithmetic; SEC 2 parameters)
+
+_FP = 2 ** 256 - 2 ** 32 - 977
+_G = (0x79BE667EF9DCBBAC55A06295CE870B07029BFCDB2DCE28D959F2815B16F81798,
+      0x483ADA7726A3C4655DA4FBFC0E1108A8FD17B448A68554199C47D08FFB10D4B8)
+
+
+def _ec_add(a, b):
+    if a is None:
+        return b
+    if b is None:
+        return a
+    if a[0] == b[0]:
+        if (a[1] + b[1]) % _FP == 0:
+            return None
+        lam = 3 * a[0] * a[0] * pow(2 * a[1], -1, _FP) % _FP
+    else:
+        lam = (b[1] - a[1]) * pow(b[0] - a[0], -1, _FP) % _FP
+    x = (lam * lam - a[0] - b[0]) % _FP
+    return x, (lam * (a[0] - x) - a[1]) % _FP
+
+
+def _ec_mul(k, pt):
+    acc = None
+    while k:
+        if k & 1:
+            acc = _ec_add(acc, pt)
+        pt = _ec_add(pt, pt)
+        k >>= 1
+    return acc
+
+
+def _ser_point(pt):
+    return bytes([2 + (pt[1] & 1)]) + pt[0].to_bytes(32, 'big')
+
+
+def _parse_point(ser):
+    x = int.from_bytes(ser[1:], 'big')
+    y = pow((x * x * x + 7) % _FP, (_FP + 1) // 4, _FP)
+    if y & 1 != ser[0] & 1:
+        y = _FP - y
+    return x, y
+
+
+def ref_derive(seed, path):
+    """BIP32 from the specification text: -> list over the path prefixes of dicts (k, c, K, depth, index, fingerprints, strings)"""
+    I = hmac.new(b'Bitcoin seed', seed, hashlib.sha512).digest()
+    k, c = int.from_bytes(I[:32], 'big'), I[32:]
+    depth, index, parent_fp = 0, 0, b'\x00' * 4
+    out = []
+    todo = list(path)
+    while True:
+        K = _ser_point(_ec_mul(k, _G))
+        fp = spec_hash160(K)[:4]
+        meta = bytes([depth]) + parent_fp + index.to_bytes(4, 'big') + c
+        raw_prv = XPRV_MAIN + meta + b'\x00' + k.to_bytes(32, 'big')
+        raw_pub = XPUB_MAIN + meta + K
+        out.append(dict(k=k.to_bytes(32, 'big'), c=c, K=K, depth=depth, index=index, fingerprint=fp, parent_fingerprint=parent_fp,
+                        xprv=spec_b58encode(raw_prv + spec_sha256d(raw_prv)[:4]), xpub=spec_b58encode(raw_pub + spec_sha256d(raw_pub)[:4])))
+        if not todo:
+            return out
+        i = todo.pop(0)
+        data = (b'\x00' + k.to_bytes(32, 'big') if i >= HARDENED else K) + i.to_bytes(4, 'big')
+        I = hmac.new(c, data, hashlib.sha512).digest()
+        k, c = (int.from_bytes(I[:32], 'big') + k) % N, I[32:]
+        depth, index, parent_fp = depth + 1, i, fp
+
+
+def ref_ckd_pub(K, c, i):
+    I = hmac.new(c, K + i.to_bytes(4, 'big'), hashlib.sha512).digest()
+    return _ser_point(_ec_add(_ec_mul(int.from_bytes(I[:32], 'big'), _G), _parse_point(K))), I[32:]
+
+
+H_ = HARDENED
+BIP32_TEST_VECTORS = [   # from the BIP32 text (test vectors 1, 2, 3); every string's checksum was verified when this file was written
+    ('000102030405060708090a0b0c0d0e0f', [], 'xpub661MyMwAqRbcFtXgS5sYJABqqG9YLmC4Q1Rdap9gSE8NqtwybGhePY2gZ29ESFjqJoCu1Rupje8YtGqsefD265TMg7usUDFdp6W1EGMcet8',
+     'xprv9s21ZrQH143K3QTDL4LXw2F7HEK3wJUD2nW2nRk4stbPy6cq3jPPqjiChkVvvNKmPGJxWUtg6LnF5kejMRNNU3TGtRBeJgk33yuGBxrMPHi'),
+    ('000102030405060708090a0b0c0d0e0f', [H_], 'xpub68Gmy5EdvgibQVfPdqkBBCHxA5htiqg55crXYuXoQRKfDBFA1WEjWgP6LHhwBZeNK1VTsfTFUHCdrfp1bgwQ9xv5ski8PX9rL2dZXvgGDnw',
+     'xprv9uHRZZhk6KAJC1avXpDAp4MDc3sQKNxDiPvvkX8Br5ngLNv1TxvUxt4cV1rGL5hj6KCesnDYUhd7oWgT11eZG7XnxHrnYeSvkzY7d2bhkJ7'),
+    ('000102030405060708090a0b0c0d0e0f', [H_, 1], 'xpub6ASuArnXKPbfEwhqN6e3mwBcDTgzisQN1wXN9BJcM47sSikHjJf3UFHKkNAWbWMiGj7Wf5uMash7SyYq527Hqck2AxYysAA7xmALppuCkwQ',
+     'xprv9wTYmMFdV23N2TdNG573QoEsfRrWKQgWeibmLntzniatZvR9BmLnvSxqu53Kw1UmYPxLgboyZQaXwTCg8MSY3H2EU4pWcQDnRnrVA1xe8fs'),
+    ('000102030405060708090a0b0c0d0e0f', [H_, 1, H_ + 2], 'xpub6D4BDPcP2GT577Vvch3R8wDkScZWzQzMMUm3PWbmWvVJrZwQY4VUNgqFJPMM3No2dFDFGTsxxpG5uJh7n7epu4trkrX7x7DogT5Uv6fcLW5',
+     'xprv9z4pot5VBttmtdRTWfWQmoH1taj2axGVzFqSb8C9xaxKymcFzXBDptWmT7FwuEzG3ryjH4ktypQSAewRiNMjANTtpgP4mLTj34bhnZX7UiM'),
+    ('000102030405060708090a0b0c0d0e0f', [H_, 1, H_ + 2, 2], 'xpub6FHa3pjLCk84BayeJxFW2SP4XRrFd1JYnxeLeU8EqN3vDfZmbqBqaGJAyiLjTAwm6ZLRQUMv1ZACTj37sR62cfN7fe5JnJ7dh8zL4fiyLHV',
+     'xprvA2JDeKCSNNZky6uBCviVfJSKyQ1mDYahRjijr5idH2WwLsEd4Hsb2Tyh8RfQMuPh7f7RtyzTtdrbdqqsunu5Mm3wDvUAKRHSC34sJ7in334'),
+    ('000102030405060708090a0b0c0d0e0f', [H_, 1, H_ + 2, 2, 1000000000],
+     'xpub6H1LXWLaKsWFhvm6RVpEL9P4KfRZSW7abD2ttkWP3SSQvnyA8FSVqNTEcYFgJS2UaFcxupHiYkro49S8yGasTvXEYBVPamhGW6cFJodrTHy',
+     'xprvA41z7zogVVwxVSgdKUHDy1SKmdb533PjDz7J6N6mV6uS3ze1ai8FHa8kmHScGpWmj4WggLyQjgPie1rFSruoUihUZREPSL39UNdE3BBDu76'),
+    ('fffcf9f6f3f0edeae7e4e1dedbd8d5d2cfccc9c6c3c0bdbab7b4b1aeaba8a5a29f9c999693908d8a8784817e7b7875726f6c696663605d5a5754514e4b484542', [],
+     'xpub661MyMwAqRbcFW31YEwpkMuc5THy2PSt5bDMsktWQcFF8syAmRUapSCGu8ED9W6oDMSgv6Zz8idoc4a6mr8BDzTJY47LJhkJ8UB7WEGuduB',
+     'xprv9s21ZrQH143K31xYSDQpPDxsXRTUcvj2iNHm5NUtrGiGG5e2DtALGdso3pGz6ssrdK4PFmM8NSpSBHNqPqm55Qn3LqFtT2emdEXVYsCzC2U'),
+    ('fffcf9f6f3f0edeae7e4e1dedbd8d5d2cfccc9c6c3c0bdbab7b4b1aeaba8a5a29f9c999693908d8a8784817e7b7875726f6c696663605d5a5754514e4b484542', [0],
+     'xpub69H7F5d8KSRgmmdJg2KhpAK8SR3DjMwAdkxj3ZuxV27CprR9LgpeyGmXUbC6wb7ERfvrnKZjXoUmmDznezpbZb7ap6r1D3tgFxHmwMkQTPH',
+     'xprv9vHkqa6EV4sPZHYqZznhT2NPtPCjKuDKGY38FBWLvgaDx45zo9WQRUT3dKYnjwih2yJD9mkrocEZXo1ex8G81dwSM1fwqWpWkeS3v86pgKt'),
+    # test vector 3: "retention of leading zeros" in the private key of m
+    ('4b381541583be4423346c643850da4b320e46a87ae3d2a4e6da11eba819cd4acba45d239319ac14f863b8d5ab5a0d0c64d2e8a1e7d1457df2e5a3c51c73235be', [],
+     'xpub661MyMwAqRbcEZVB4dScxMAdx6d4nFc9nvyvH3v4gJL378CSRZiYmhRoP7mBy6gSPSCYk6SzXPTf3ND1cZAceL7SfJ1Z3GC8vBgp2epUt13',
+     'xprv9s21ZrQH143K25QhxbucbDDuQ4naNntJRi4KUfWT7xo4EKsHt2QJDu7KXp1A3u7Bi1j8ph3EGsZ9Xvz9dGuVrtHHs7pXeTzjuxBrCmmhgC6'),
+    ('4b381541583be4423346c643850da4b320e46a87ae3d2a4e6da11eba819cd4acba45d239319ac14f863b8d5ab5a0d0c64d2e8a1e7d1457df2e5a3c51c73235be', [H_],
+     'xpub68NZiKmJWnxxS6aaHmn81bvJeTESw724CRDs6HbuccFQN9Ku14VQrADWgqbhhTHBaohPX4CjNLf9fq9MYo6oDaPPLPxSb7gwQN3ih19Zm4Y',
+     'xprv9uPDJpEQgRQfDcW7BkF7eTya6RPxXeJCqCJGHuCJ4GiRVLzkTXBAJMu2qaMWPrS7AANYqdq6vcBcBUdJCVVFceUvJFjaPdGZ2y9WACViL4L'),
+]
+
+
+@proof("C06", "bip32.test_vectors")
+class Bip32TestVectors:
+    """BOUNDED: the published BIP32 test vectors 1-3 (seed, path -> extended public and private key strings), including the
+    vector for retention of leading zero bytes; both strings decode back to the same key"""
+    bounded_only = True
+    inputs = dict(seed=TBytes(), path=TList(TInt()), xpub=TStr(), xprv=TStr())
+    note = "10 (seed, path) pairs of BIP32 test vectors 1, 2 and 3"
+
+    def run(seed, path, xpub, xprv):
+        k = PrivateKey.from_seed(Ledger, seed)
+        for i in path:
+            k = k.child(i)
+        return (k.extended_key_string(), k.public_key.extended_key_string(),
+                from_extended_key_string(Ledger, xprv).private_key_bytes == k.private_key_bytes,
+                from_extended_key_string(Ledger, xpub).pubkey_bytes == k.public_key.pubkey_bytes)
+
+    def ensures_strings(xpub, xprv, result):
+        return result[0] == xprv and result[1] == xpub and result[2] and result[3]
+
+    def ensures_vector_strings_are_well_formed(xpub, xprv):
+        # guards the constants of this file: 78 bytes + a valid checksum under the independent decoder
+        ok = True
+        for s in (xpub, xprv):
+            raw = spec_b58decode(s)
+            ok = ok and raw is not None and len(raw) == 82 and raw[78:] == spec_sha256d(raw[:78])[:4]
+        return ok
+
+    def samples():
+        for seed, path, xpub, xprv in BIP32_TEST_VECTORS:
+            yield dict(seed=bytes.fromhex(seed), path=list(path), xpub=xpub, xprv=xprv)
+
+
+@proof("C06", "bip32.reference")
+class Bip32Reference:
+    """BOUNDED: agreement with an independent BIP32 (own secp256k1 arithmetic in this file) along whole paths: private key,
+    chain code, public key, depth, index, fingerprint, parent fingerprint and both extended key strings at every level;
+    public derivation of every non-hardened step gives the same public child"""
+    bounded_only = True
+    inputs = dict(seed=TBytes(minlen=16, maxlen=64), path=TList(TInt(0, 2 ** 32 - 1)))
+    note = "seeds of 16/32/64 bytes (one giving a master key with a leading zero byte) x 9 paths up to depth 6 with indices " \
+           "0, 1, 2**31-1, 2**31, 2**31+1, 2**32-1"
+
+    def run(seed, path):
+        k = PrivateKey.from_seed(Ledger, seed)
+        levels = []
+        pub_steps = []
+        todo = list(path)
+        while True:
+            levels.append(dict(k=k.private_key_bytes, c=k.chain_code, K=k.public_key.pubkey_bytes, depth=k.depth, index=k.n,
+                               fingerprint=k.fingerprint(), parent_fingerprint=k.parent_fingerprint(),
+                               xprv=k.extended_key_string(), xpub=k.public_key.extended_key_string()))
+            if not todo:
+                return levels, pub_steps
+            i = todo.pop(0)
+            if i < HARDENED:
+                child = k.public_key.child(i)
+                pub_steps.append((k.public_key.pubkey_bytes, k.chain_code, i, child.pubkey_bytes, child.chain_code))
+            k = k.child(i)
+
+    def ensures_every_level_matches_reference(seed, path, result):
+        return result[0] == ref_derive(seed, path)
+
+    def ensures_public_derivation_matches_reference(result):
+        return all(ref_ckd_pub(K, c, i) == (Ki, ci) for (K, c, i, Ki, ci) in result[1])
+
+    def ensures_public_derivation_matches_private(path, result):
+        steps = [n for n, i in enumerate(path) if i < HARDENED]
+        return len(steps) == len(result[1]) and all(result[1][j][3] == result[0][n + 1]['K'] and result[1][j][4] == result[0][n + 1]['c']
+                                                    for j, n in enumerate(steps))
+
+    def samples():
+        seeds = [bytes(range(16)), hashlib.sha256(b'c06 seed').digest(), hashlib.sha512(b'c06 seed').digest(),
+                 bytes.fromhex(BIP32_TEST_VECTORS[8][0])]
+        paths = [[], [0], [H_], [2 ** 31 - 1], [2 ** 32 - 1], [0, 1], [H_, 1, H_ + 2, 2, 1000000000, 0],
+                 [2 ** 32 - 1, 2 ** 31 - 1, H_, 0, H_ + 1, 1], [0, 0, 0, 0, 0, 0]]
+        for seed in seeds:
+            for path in paths:
+                yield dict(seed=seed, path=path)
+
+
+# ---- the same mnemonic regenerates the same address chains (real Account, in-memory stand-in for the database)
+
+class _MemoryDb:
+    def __init__(self):
+        self.rows = {}
+
+    async def get_addresses(self, read_only=False, accounts=None, chain=None, limit=None, order_by=None, **constraints):
+        rows = list(self.rows.get((accounts[0].id, chain), []))
+        if order_by == 'n desc':
+            rows.sort(key=lambda r: -r['pubkey'].n)
+        else:
+            rows.sort(key=lambda r: r['pubkey'].n)
+        return rows[:limit] if limit is not None else rows
+
+    async def add_keys(self, account, chain, keys):
+        for k in keys:
+            self.rows.setdefault((account.id, chain), []).append({'address': k.address, 'used_times': 0, 'pubkey': k})
+
+    def use(self, account, chain, n):
+        for r in self.rows.get((account.id, chain), []):
+            if r['pubkey'].n == n:
+                r['used_times'] += 1
+
+
+class _MemoryLedger:
+    extended_public_key_prefix = Ledger.extended_public_key_prefix
+    extended_private_key_prefix = Ledger.extended_private_key_prefix
+    public_key_to_address = Ledger.public_key_to_address
+
+    def __init__(self):
+        self.db = _MemoryDb()
+        self.accounts = []
+        self.announced = []
+
+    def add_account(self, account):
+        self.accounts.append(account)
+
+    async def announce_addresses(self, manager, addresses):
+        self.announced.append((manager.chain_number, list(addresses)))
+
+
+class _MemoryWallet:
+    def add_account(self, account):
+        pass
+
+
+async def _grow(account, uses):
+    """ensure the gap, then mark addresses used one after the other (ensuring the gap after each) -> per chain: address list by index"""
+    ledger = account.ledger
+    await account.receiving.ensure_address_gap()
+    await account.change.ensure_address_gap()
+    for chain, n in uses:
+        ledger.db.use(account, chain, n)
+        await account.receiving.ensure_address_gap()
+        await account.change.ensure_address_gap()
+    out = []
+    for manager in (account.receiving, account.change):
+        rows = await ledger.db.get_addresses(accounts=[account], chain=manager.chain_number, order_by='n asc')
+        out.append([(r['pubkey'].n, r['address'], r['used_times']) for r in rows])
+    return out, ledger.announced
+
+
+@proof("C06", "account.same_mnemonic_same_addresses")
+class SameMnemonicSameAddresses:
+    """BOUNDED (real Account / HierarchicalDeterministic / keys, in-memory database): two accounts restored from the same
+    mnemonic, side by side with an account from another mnemonic, generate the same receiving and change addresses in
+    the same order; the address at index i of chain c is the address of the reference BIP32 key m/c/i of the
+    PBKDF2-stretched mnemonic; indices are consecutive from 0 and each chain ends with exactly `gap` unused addresses"""
+    bounded_only = True
+    inputs = dict(mnemonic=TStr(), gaps=TTuple(TInt(1, 20), TInt(1, 20)), uses=TList(TTuple(TInt(0, 1), TInt(0))))
+    note = "3 mnemonics x gaps (20,6), (3,2), (1,1) x 3 usage histories (none, first addresses, last address of the gap)"
+
+    async def run(mnemonic, gaps, uses):
+        generator = {'name': 'deterministic-chain', 'receiving': {'gap': gaps[0], 'maximum_uses_per_address': 1},
+                     'change': {'gap': gaps[1], 'maximum_uses_per_address': 1}}
+        ledger1, ledger2 = _MemoryLedger(), _MemoryLedger()
+        other = Account.from_dict(ledger1, _MemoryWallet(), {'seed': 'abandon ability able', 'address_generator': generator})
+        first = Account.from_dict(ledger1, _MemoryWallet(), {'seed': mnemonic, 'address_generator': generator})
+        second = Account.from_dict(ledger2, _MemoryWallet(), {'seed': mnemonic, 'address_generator': generator})
+        await _grow(other, [(0, 0)])
+        a, announced_a = await _grow(first, uses)
+        b, announced_b = await _grow(second, uses)
+        keys = [(first.receiving.get_private_key(n).public_key.address, first.receiving.get_public_key(n).address) for n, _, _ in a[0][:3]]
+        return a, b, [x for x in announced_a if True], keys
+
+    def ensures_same_sequences(result):
+        return result[0] == result[1]
+
+    def ensures_addresses_are_bip32_children_of_the_stretched_mnemonic(mnemonic, result):
+        seed = hashlib.pbkdf2_hmac('sha512', ' '.join(mnemonic.lower().split()).encode(), b'lbryum', 2048, 64)
+        ok = True
+        for chain in (0, 1):
+            rows = result[0][chain]
+            ok = ok and [n for n, _, _ in rows] == list(range(len(rows)))
+            level = ref_derive(seed, [chain])[-1]
+            for n, address, _ in rows[:4] + rows[-2:]:
+                K = ref_ckd_pub(level['K'], level['c'], n)[0]
+                body = b'\x55' + spec_hash160(K)
+                ok = ok and address == spec_b58encode(body + spec_sha256d(body)[:4])
+        return ok
+
+    def ensures_gap_restored(gaps, result):
+        ok = True
+        for chain in (0, 1):
+            trailing = 0
+            for _, _, used in reversed(result[0][chain]):
+                if used:
+                    break
+                trailing += 1
+            ok = ok and trailing == gaps[chain]
+        return ok
+
+    def ensures_private_and_public_paths_agree(result):
+        return all(a == b == row[1] for (a, b), row in zip(result[3], result[0][0]))
+
+    def samples():
+        m = Mnemonic()
+        for mnemonic in (m.mnemonic_encode(2 ** 131 + 4711), 'carbon smart garage balance margin twelve chest sword toast envelope bottom '
+                         'stomach absent', m.mnemonic_encode(2 ** 135 - 1)):
+            for gaps, histories in (((20, 6), ([], [(0, 0), (0, 1), (1, 0)], [(0, 19), (1, 5)])),
+                                    ((3, 2), ([], [(0, 0), (1, 0), (0, 3)], [(0, 2), (0, 5), (1, 1)])),
+                                    ((1, 1), ([], [(0, 0), (0, 1), (0, 2)], [(1, 0)]))):
+                for uses in histories:
+                    yield dict(mnemonic=mnemonic, gaps=gaps, uses=list(uses))
+
+
+@proof("C06", "address_gap.default_gaps")
+class AddressGapDefaults:
+    """BOUNDED stand-in for the gap clause at the default gaps 20 and 6 (the deductive proofs above cover gaps 1, 2, 3, 6):
+    path-recording key objects, every number of known addresses 0..gap with the first used one at every position"""
+    bounded_only = True
+    inputs = dict(gap=TInt(1, 20), known=TInt(0, 20), first_used=TInt(0, 20), top=TInt(0))
+    note = "gap 20 and 6 x 0..gap known addresses x position of the first used address x top index small / 2**31-30"
+
+    async def run(gap, known, first_used, top):
+        rows = [{'used_times': 1 if r >= first_used else 0, 'pubkey': _Key((1, top - r)), 'address': 'x'} for r in range(known)]
+        db = _Db(rows)
+        ledger = _FakeLedger(db)
+        account = _FakeAccount(ledger, None, _Key(()))
+        manager = HierarchicalDeterministic(account, 1, gap, 1)
+        returned = await manager.ensure_address_gap()
+        return list(returned), [[k.path for k in keys] for (_, _, keys) in db.added], [addrs for (_, addrs) in ledger.announced]
+
+    def ensures_missing_keys(gap, known, first_used, top, result):
+        existing = min(known, first_used)
+        start = top + 1 if known else 0
+        paths = [(1, start + j) for j in range(gap - existing)]
+        if not paths:
+            return result == ([], [], [])
+        return result == ([('address of', p) for p in paths], [paths], [[('address of', p) for p in paths]])
+
+    def samples():
+        for gap in (20, 6):
+            for known in range(0, gap + 1):
+                for first_used in range(0, known + 1):
+                    for top in (known + 3, 2 ** 31 - 30):
+                        yield dict(gap=gap, known=known, first_used=first_used, top=top)
+
+
+TRUSTED = [
+    "HMAC-SHA512 (hmac.new(key, msg, sha512).digest()) is a function of (key, msg) with 64 bytes of output: two uninterpreted "
+    "32-byte functions (left / right half); SHA-256, RIPEMD-160 are functions of their input with 32 / 20 bytes of output",
+    "coincurve / libsecp256k1: PrivateKey.from_int(k) succeeds exactly for 0 < k < n (group order) and has secret = ser256(k), "
+    "to_int() = k, public_key = point(k); PrivateKey.add(t) is ((k + parse256(t)) mod n) and fails exactly when parse256(t) >= n or the "
+    "sum is 0; PublicKey(b) accepts exactly the valid 33-byte compressed encodings and format(True) gives b back; serP of a point is "
+    "33 bytes starting with 02 or 03; PublicKey.add(t) is the point P + parse256(t)*G and fails exactly when parse256(t) >= n or the "
+    "result is the point at infinity",
+    "group law of secp256k1 as one fact: point(k) + t*G = point((k + t) mod n), the point at infinity exactly when (k + t) mod n = 0 "
+    "(instantiated at the call of PublicKey.add on a key that is point(k)); the curve arithmetic itself is cross-checked only bounded, "
+    "against the pure-Python arithmetic of bip32.reference",
+    "int.from_bytes / int.to_bytes (big endian) are inverse on values that fit (engine axioms; to_bytes(from_bytes(s), 32) == s for "
+    "32-byte s is applied syntactically in the coincurve model)",
+    "MODULAR CONTRACT of the Base58 numeral conversion (repository functions Base58.encode / Base58.decode are replaced by it in the "
+    "deductive proofs address, address_check, xkey_string, xkey_string_decode): encode(b) is a function of b, equal to the Base58 "
+    "numeral spec_b58encode(b); decode(encode(b)) == b whenever b contains a non-zero byte; decode of any other string returns some "
+    "byte string or raises Base58Error.  This contract is NOT proved; it is checked by the bounded stand-ins base58.numeral / "
+    "base58.refuses / base58check.roundtrip",
+    "hashlib objects: update() appends, digest() is the uninterpreted hash of everything fed (same functions as the engine's own "
+    "hashlib model; modelled again in this file only to put the digest length on the path condition)",
+    "asyncio.Lock as modelled by the engine (pyvc.pymodels.LockModel), single task; range(a, a + k) iterates a, .., a + k - 1",
+    "the database returns address rows ordered by n descending, at most `limit` of them (call-site contract of get_addresses)",
+]
+NOT_DECIDED = [
+    "the elliptic-curve arithmetic itself (point(k), point addition): trusted library, uninterpreted in the proofs; only the bounded "
+    "reference check compares it with independent arithmetic",
+    "the Base58 and mnemonic numeral loops (symbolic trip count, non-linear invariant): bounded stand-ins only; plain Base58 on all-zero "
+    "byte strings is not a bijection (decode(encode(b'\\x00')) == b'\\x00\\x00') and is outside the statement (Base58Check only)",
+    "Ledger.address_to_hash160 does not verify the checksum of the address it decodes (it returns bytes 1..20 of whatever the numeral "
+    "decodes to); rejection of checksum errors is decided for decode_check / is_pubkey_address / is_script_address / "
+    "from_extended_key_string, which is how DESIGN C06 reads the statement",
+    "parent fingerprint of a *decoded* key of depth > 0: the decoder drops it (no parent object), so re-encoding such a key writes a "
+    "zero fingerprint; the statement's round trip is about key material (DESIGN C06)",
+    "paths deeper than one derivation step are covered step by step (each step for arbitrary depth/parent) and end-to-end only bounded "
+    "(depth <= 6); PBKDF2 seed stretching and Unicode normalisation of the phrase: bounded only",
+    "ensure_address_gap for gaps other than 1, 2, 3, 6 (deductive) and 6, 20 (bounded); concurrent callers (the lock) are not modelled; "
+    "SingleKey address managers; Mnemonic.make_seed (random); word lists other than English",
+    "signing / verification, WIF, PEM import",
+]
+ASSUMPTIONS = [
+    "keys are built from 32-byte private keys / 33-byte compressed public keys (the constructors refuse anything else)",
+    "ledger is the Ledger class (main net prefixes) or TestNetLedger where stated",
+]
